@@ -11,7 +11,7 @@ CONFIG = {
         TRANSLATOR + " (TokensGen.v, UnicodeGen.v as for C11; unicode.IsSpace also drives strings.Fields / TrimSpace in the re-flow)",
         CORR, HARNESS,
         "modelled, not verified: strings.NewReplacer / ReplaceAll / Fields / TrimSpace / TrimRight / Repeat / Join, len() of strings (UTF-8 length), fmt.Sprintf with %s, []rune conversion",
-        "add-only hooks: internal/bcl/internal/parser/verif_export.go, internal/bcl/verifbcl, lib/verifshim/bcl, cmd/j5/internal/cli/verif_export.go + cmd/j5/verifcli (runs runJ5sFmt: j5 j5s fmt --file/--dir --write) (build tag verif)",
+        "add-only hooks: internal/bcl/internal/parser/verif_export.go, internal/bcl/verifbcl, lib/verifshim/bcl, cmd/j5/internal/cli/verif_export.go + cmd/j5/verifcli (runs runJ5sFmt: j5 j5s fmt --file/--dir --write), lib/verifshim/bcl FmtPublic (internal/bcl.Fmt, the wrapper the command calls) (build tag verif)",
     ],
     "assumptions": [
         "model/BclFmt.v is the hand-written model of fmt.go and description.go as they are after the fix: commits listed in KNOWN_FINDINGS.txt (tokenSource with the lexer's own escapes, Fields-based re-flow, bare '|' for an empty description), on top of the C11 models; tied to the code by byte-exact comparison of Fmt output (or its rejection) on every generated file, and of tokenSource / reformatDescription on random literals",
